@@ -582,6 +582,16 @@ func (d decomposed192) log() (bool, decomposed192, int8) {
 		msd *= 10
 	}
 
+	// Within one percent below a power of ten the table entry ln(9.9) and the
+	// multiple of ln(10) nearly cancel, which costs up to all digits of the
+	// result. There d/10 is close enough to one for the series alone.
+	below := msd == 99
+	if below {
+		d.exp--
+		exp++
+		msd = 10
+	}
+
 	var trunc int8
 	if msd > 10 {
 		d, trunc = d.quo(decomposed192{
@@ -625,7 +635,17 @@ func (d decomposed192) log() (bool, decomposed192, int8) {
 	}, trunc)
 
 	neg := false
-	if expNeg {
+	if below {
+		// res is -ln(d) here, as d is below one
+		if expNeg {
+			neg = true
+			res, trunc = res.add(lnExp, trunc)
+		} else if exp == 0 {
+			neg = true
+		} else {
+			neg, res, trunc = lnExp.sub(res, trunc)
+		}
+	} else if expNeg {
 		neg, res, trunc = res.sub(lnExp, trunc)
 	} else {
 		res, trunc = res.add(lnExp, trunc)
